@@ -15,6 +15,7 @@ var units = map[string]common.UnitFunc{
 	"c12":         unitC12,
 	"c16":         unitC16,
 	"c17":         unitC17,
+	"c20core":     unitC20core,
 	"c11scripted": unitC11scripted,
 	"c07honest":   unitC07honest,
 	"c07byz":      unitC07byz,
